@@ -55,7 +55,7 @@ func goalC02(st *world.State) string {
 	}
 	upd := refUpdateRev(st)
 	ru := set.Spec.UpdateStrategy.RollingUpdate
-	partOK := set.Spec.UpdateStrategy.Type == "RollingUpdate" && ru != nil && ru.Partition != nil
+	partOK := (set.Spec.UpdateStrategy.Type == "RollingUpdate" || set.Spec.UpdateStrategy.Type == "") && ru != nil && ru.Partition != nil
 	have := map[int]bool{}
 	for _, n := range world.SortedKeys(st.API.Pods) {
 		p := st.API.Pods[n]
@@ -233,7 +233,12 @@ func searchSeeds(grids []gridOpts) []explore.Seed {
 func c02Grids() []gridOpts {
 	g := gridOpts{N: 3, MaxR: 2, MaxSlots: 1, Policies: []string{"OrderedReady", "Parallel"},
 		Strategies: []gen.Strategy{gen.RU(0), gen.RU(1), gen.OnDelete()}, Histories: coreHistories, DMin: 0, DMax: 1, Limit: 10}
-	return []gridOpts{g}
+	// less common configuration: the selector written as expressions (steady states and single differences)
+	e := g
+	e.SelExpr, e.MaxSlots = true, 0
+	e.Strategies = []gen.Strategy{gen.RU(0), gen.RU(1)}
+	e.Histories = []history{histories[1], histories[5], histories[8]}
+	return []gridOpts{g, e}
 }
 
 // c02WideGrids is the larger seed grid of the thorough tier (explored with one deviation).
